@@ -1,6 +1,32 @@
 """props_c01 — C01 uses the shared corpus plus the required-context booster of props_c02 (every combinator template
 with the consume-then-fail basis in every slot under a non-last sor alternative / a loop body): the classical ones
-carry a surface term, so the formalism oracle (Spec.peg_fn) judges them."""
-from props_c02 import extra_grams, choose_cfgs, BOOST_CFGS   # noqa: F401
+carry a surface term, so the formalism oracle (Spec.peg_fn) judges them.  Plus the degenerate atoms: empty value
+lists (one<> is the formalism's failure, not_one<> its dot) and literals with an embedded NUL byte."""
+import corpus
+import props_c02
+from props_c02 import choose_cfgs, BOOST_CFGS   # noqa: F401
 
 BASE_CORPUS = True
+
+
+def _degenerate():
+    T = corpus.T
+    atoms = [
+        T("one<>", "(failure)"), T("not_one<>", "(any)"),
+        T("string< 'a', 0, 'b' >", "(string 97 0 98)"), T("string< 0 >", "(string 0)"), T("one< 0, 'b' >", "(one 0 98)"), T("not_one< 0 >", "(not_one 0)"),
+        T("string< 'a', 'b', 'c' >", "(string 97 98 99)"), T("range< 0, 'a' >", "(range 0 97)"),
+    ]
+    ctxs = dict(corpus.contexts())
+    out = []
+    for t in atoms:
+        for cname in ("top", "sor_first", "star_body", "under_not_at", "opt_then"):
+            g = corpus.mk(0, ctxs[cname](t), ["classical", "c01:degenerate", "ctx:" + cname])
+            g.alphabet = "a\0bc"
+            g.extra_inputs = ["a\0b", "a\0c", "axy", "a\0ba\0b", "\0", "\0\0", "ab\0"]
+            g.maxlen = 3
+            out.append(g)
+    return out
+
+
+def extra_grams(tier, seed, start_gid):
+    return props_c02.extra_grams(tier, seed, start_gid) + _degenerate()
